@@ -413,7 +413,14 @@ let ipow i b a b0 =
 
 let inth_root i b a b0 =
   let bpt = i.i_trunc (lower b0) in
-  { iv = (sanitize i (b.b_nth_root a.iv bpt)); nanf =
+  { iv =
+  (let r = b.b_nth_root a.iv bpt in
+   ((if (&&) (i.i_isnan (fst r)) (i.i_eqb (lower a) i.i_ninf)
+     then i.i_ninf
+     else fst r),
+   (if (&&) (i.i_isnan (snd r)) (i.i_eqb (upper a) i.i_pinf)
+    then i.i_pinf
+    else snd r))); nanf =
   ((||) ((||) a.nanf b0.nanf)
     ((&&) (i.i_leb (lower a) i.i_zero) (negb (Z.testbit bpt Z0)))) }
 
